@@ -58,6 +58,7 @@ var c18Svcs = []string{"ssh", "ftp", "smtp", "ldap", "agent"}
 
 var c18CrashPoints = []string{
 	"token:before-create", "token:created-empty", "token:written",
+	"token:before-open", "token:after-open", "token:before-rename", "token:after-rename",
 	"ssh:before-set:private-key", "ssh:after-set:private-key",
 	"ftp:before-set:pemkey", "ftp:after-set:pemkey", "ftp:before-set:pemcert", "ftp:after-set:pemcert",
 	"smtp:before-set:pemkey", "smtp:after-set:pemkey", "smtp:before-set:pemcert", "smtp:after-set:pemcert",
